@@ -990,7 +990,7 @@ PROPS = {
         'extra': [extra_c05_crash, extra_c05_scale],
         'witness': witness_c05,
         'technique': 'Verus: allocation-size obligations injected at every allocation site found by token scan, decreases clauses, overflow / index / unwrap / library-precondition obligations on every function under contract',
-        'level_text': 'Partial: for the functions under contract - the eight CBOR decoder functions, the three parse-error range functions and the greedy occurrence loop of the array matcher in both validators (unit U7: terminates also for zero-width iterations such as [* ()], cursor stays inside the array, no counter overflow - with one iteration abstracted by a stub whose assumed contract is that the cursor never moves backwards or past the end) - Verus proves (a) every allocation whose size is a run-time value requests at most a constant (the "length in a CBOR head is never trusted for allocation" clause; sites re-discovered on every run), (b) termination of every loop and of the mutual recursion, (c) absence of arithmetic overflow, out-of-bounds indexing, failing unwrap and violated library preconditions (e.g. ciborium push() with a header already buffered, read_exact with a buffered header - both panic). Found and fixed: allocation of 2 TiB from 9b 00 00 00 10 00 00 00 00 (F3). NOT decided deductively: polynomial time, stack depth (recursion on nesting), the pest parser, the validators, Display. For the entry points as a whole only a bounded crash search runs (labelled bounded, not counted): 616 two-rule schemas x small documents through parse / checked parse / format / JSON and CBOR validation in subprocesses. It found F12 (.plus overflow, fixed), F13 (tag-1 epoch unwrap, fixed) F9 (a cyclic alias reached through a control operator, an unwrap, a .cat/.plus operand or a generic overflowed the stack: 1425 instances, fixed in three steps F38-F40) and one defect recorded as a known finding instance by instance: F19 (uriparse panics on some strings: 14 instances). A second bounded search (labelled bounded, not counted) runs the same entry points with a 120 s limit per case on every text of <= 3 tokens out of 40 and on inputs at the limits the property names - nesting depth 64 in 19 shapes, sizes up to the 64 KiB class in 23 shapes; it found F25 (formatter exponential in nesting depth, fixed) F37 (sloppy base64 on non-ASCII text, fixed) and F24 (a generic parameter forwarded under its own name overflowed the stack in both validators; first recorded as a known finding, then fixed).',
+        'level_text': 'Partial: for the functions under contract - the eight CBOR decoder functions, the three parse-error range functions and the greedy occurrence loop of the array matcher in both validators (unit U7: terminates also for zero-width iterations such as [* ()], cursor stays inside the array, no counter overflow - with one iteration abstracted by a stub whose assumed contract is that the cursor never moves backwards or past the end) - Verus proves (a) every allocation whose size is a run-time value requests at most a constant (the "length in a CBOR head is never trusted for allocation" clause; sites re-discovered on every run), (b) termination of every loop and of the mutual recursion, (c) absence of arithmetic overflow, out-of-bounds indexing, failing unwrap and violated library preconditions (e.g. ciborium push() with a header already buffered, read_exact with a buffered header - both panic). Found and fixed: allocation of 2 TiB from 9b 00 00 00 10 00 00 00 00 (F3). NOT decided deductively: polynomial time, stack depth (recursion on nesting), the pest parser, the validators, Display. For the entry points as a whole only a bounded crash search runs (labelled bounded, not counted): 616 two-rule schemas x small documents through parse / checked parse / format / JSON and CBOR validation in subprocesses. It found F12 (.plus overflow, fixed), F13 (tag-1 epoch unwrap, fixed) F9 (a cyclic alias reached through a control operator, an unwrap, a .cat/.plus operand or a generic overflowed the stack: 1425 instances, fixed in three steps F38-F40) and F19 (uriparse panicked on some strings: 15 instances, fixed by parsing the URIReference directly). No instance of the two bounded searches fails on the current tree; the known-instance files are empty. A second bounded search (labelled bounded, not counted) runs the same entry points with a 120 s limit per case on every text of <= 3 tokens out of 40 and on inputs at the limits the property names - nesting depth 64 in 19 shapes, sizes up to the 64 KiB class in 23 shapes; it found F25 (formatter exponential in nesting depth, fixed) F37 (sloppy base64 on non-ASCII text, fixed) and F24 (a generic parameter forwarded under its own name overflowed the stack in both validators; first recorded as a known finding, then fixed).',
         'level_note': 'Trusted: as for C11 and C15. Only functions under contract are covered; C05 as stated quantifies over every entry point, most of which are outside the verifiers reach (see DESIGN.md 5).',
         'design_ref': 'DESIGN.md 4 U1/U3',
         'scope': 'panic/abort/termination obligations of the functions under contract in U1 and U3',
